@@ -158,6 +158,10 @@ def topo_orders(g, rnd):
     return order
 
 
+def _scalar_sim(t, c, random_state=None):
+    return float(t) * 0.5 + float(c) + float(random_state.uniform())
+
+
 def sampler_digest(sc):
     """A seeded Rejection / SMC run on a model with real random priors and simulator; digest of everything returned."""
     import elfi
@@ -171,8 +175,17 @@ def sampler_digest(sc):
         elfi.Prior("uniform", 0, 2, model=m, name="t1")
     elfi.Prior("normal", m["t1"], 1, model=m, name="t2")
     elfi.Simulator(RecSim("y"), m["t1"], m["t2"], model=m, name="y", observed=np.array([1.0]))
-    elfi.Summary(DetOp("s"), m["y"], model=m, name="s")
+    if sc.get("vecsim"):
+        # a second simulator written for ONE draw and vectorised with an explicit constants list (elfi.tools.vectorize)
+        elfi.Constant(3.0, model=m, name="c3")
+        elfi.Simulator(elfi.tools.vectorize(_scalar_sim, [1]), m["t2"], m["c3"], model=m, name="y2", observed=np.array([1.0]))
+        elfi.Summary(DetOp("s"), m["y"], m["y2"], model=m, name="s")
+    else:
+        elfi.Summary(DetOp("s"), m["y"], model=m, name="s")
     elfi.Distance("euclidean", m["s"], model=m, name="d")
+    if sc.get("pre_point"):
+        # an earlier point evaluation on the SAME model object with a scalar parameter value: must not matter for what follows
+        m.generate(1, ["s"], with_values={"t2": 0.25}, seed=5)
     h = hashlib.sha256()
     if sc["kind"] == "rejection":
         smp = elfi.Rejection(m["d"], batch_size=sc["bs"], seed=sc["seed"], output_names=["s"])
@@ -225,6 +238,9 @@ def record_sampler(sc):
         sc["second_call"] = True
         one("second-sample-call-on-the-same-sampler", [])
         sc["second_call"] = False
+    sc["pre_point"] = True
+    one("after-a-point-evaluation-on-the-same-model", [])
+    sc["pre_point"] = False
     if sc.get("mp"):
         import elfi.client
         old = elfi.client._client
@@ -367,7 +383,7 @@ def scenarios(ctx):
             rnd.choice([dict(thresholds=[2.0, 1.0]), dict(quantiles=[0.5, 0.5])])
         out.append(dict(kind=kind, seed=(rnd.randint(0, 2 ** 31 - 1) if i > 1 else 0), bs=rnd.choice([1, 3]), n=rnd.choice([2, 4]), objective=obj,
                         histories=[rnd.sample(PERTURBATIONS, 2) for _k in range(2)], hseed=rnd.randint(0, 10 ** 6),
-                        latent=(i % 4 in (1, 2)), mp=(i % 4 in (1, 3))))
+                        latent=(i % 4 in (1, 2)), mp=(i % 4 in (1, 3)), vecsim=(i % 2 == 0)))
     return out
 
 
